@@ -21,6 +21,12 @@ RULE = ("one case = one tlslite-ng endpoint against OpenSSL 3.0 (stdlib ssl, "
         "directions and an orderly close; oracle: handshake completes, both "
         "sides report the same version / suite id / ALPN / resumption status "
         "/ peer certificate, bytes arrive intact; plus negative cells with "
+        "Also: overlapping version *ranges* (with the key exchange "
+        "pinned where the version comes out below the offer), "
+        "resumption by a client offering everything up to 1.3, every "
+        "client key type, post-handshake authentication twice, "
+        "HelloRetryRequest over hello sizes, psk_ke, finite-field DHE "
+        "with a steered leading-zero secret.   "
         "an empty intersection which must fail. distinct_nontrivial = "
         "distinct (role, version, suite, key type, group, feature) tuples "
         "that completed and exchanged data.")
